@@ -286,12 +286,16 @@ loop:
 // WorkerMain is the "worker" subcommand: one JSON request per line on stdin,
 // one JSON response per line on stdout. It exits when a program hangs.
 func WorkerMain() {
-	dir, err := os.MkdirTemp("", "c26w")
-	if err != nil {
-		fmt.Fprintln(os.Stderr, err)
-		os.Exit(2)
+	dir := os.Getenv("C26W_DIR") // created and removed by the parent (the parent may SIGKILL this process)
+	var err error
+	if dir == "" {
+		dir, err = os.MkdirTemp("", "c26w")
+		if err != nil {
+			fmt.Fprintln(os.Stderr, err)
+			os.Exit(2)
+		}
+		defer os.RemoveAll(dir)
 	}
-	defer os.RemoveAll(dir)
 	in := bufio.NewReaderSize(os.Stdin, 1<<20)
 	w := bufio.NewWriter(os.Stdout)
 	enc := json.NewEncoder(w)
@@ -338,6 +342,7 @@ type worker struct {
 	cmd *exec.Cmd
 	in  io.WriteCloser
 	out *bufio.Reader
+	dir string // scratch directory of the worker process, removed by kill()
 }
 
 func startWorker() (*worker, error) {
@@ -345,9 +350,13 @@ func startWorker() (*worker, error) {
 	if err != nil {
 		return nil, err
 	}
+	wdir, err := os.MkdirTemp("", "c26w")
+	if err != nil {
+		return nil, err
+	}
 	cmd := exec.Command(self, "worker")
 	cmd.Stderr = io.Discard
-	cmd.Env = []string{"PATH=/nonexistent", "TMPDIR=" + os.TempDir(), "GOMAXPROCS=4"}
+	cmd.Env = []string{"PATH=/nonexistent", "TMPDIR=" + os.TempDir(), "GOMAXPROCS=4", "C26W_DIR=" + wdir}
 	cmd.SysProcAttr = &syscall.SysProcAttr{Setpgid: true} // so that kill() also reaps external children
 	in, err := cmd.StdinPipe()
 	if err != nil {
@@ -360,7 +369,7 @@ func startWorker() (*worker, error) {
 	if err := cmd.Start(); err != nil {
 		return nil, err
 	}
-	return &worker{cmd: cmd, in: in, out: bufio.NewReaderSize(outp, 1<<20)}, nil
+	return &worker{cmd: cmd, in: in, out: bufio.NewReaderSize(outp, 1<<20), dir: wdir}, nil
 }
 
 func (w *worker) kill() {
@@ -368,6 +377,9 @@ func (w *worker) kill() {
 	syscall.Kill(-w.cmd.Process.Pid, syscall.SIGKILL)
 	w.cmd.Process.Kill()
 	w.cmd.Wait()
+	if w.dir != "" {
+		os.RemoveAll(w.dir)
+	}
 }
 
 // do sends one request; the parent-side watchdog is the worker's own plus 5 s.
